@@ -71,19 +71,29 @@ def norm_func(fn):
     return '::'.join(parts[-2:])
 
 
+def _frame_site(m):
+    path = m.group(3)
+    rel = path.split('/include/boost/gil/')[1]
+    stem = rel[:-4] if rel.endswith('.hpp') else rel
+    stem = stem.replace('extension/io/', 'io/').replace('/detail/', '/')
+    return stem + '::' + norm_func(m.group(2))
+
+
 def gil_site(stack_lines):
-    """innermost frame whose file is under /repo/include/boost/gil -> 'stem::class::function'"""
+    """innermost frame in gil's io code if there is one, else the innermost frame under /repo/include/boost/gil
+    -> 'stem::class::function' (no line numbers, no template arguments)"""
+    first = None
     for ln in stack_lines:
         m = FRAME_RE.match(ln)
         if not m:
             continue
         path = m.group(3)
         if '/include/boost/gil/' in path and not path.startswith('/usr/include'):
-            rel = path.split('/include/boost/gil/')[1]
-            stem = rel[:-4] if rel.endswith('.hpp') else rel
-            stem = stem.replace('extension/io/', 'io/').replace('/detail/', '/')
-            return stem + '::' + norm_func(m.group(2))
-    return None
+            if first is None:
+                first = m
+            if '/gil/extension/io/' in path or '/gil/io/' in path:
+                return _frame_site(m)
+    return _frame_site(first) if first else None
 
 
 def third_party_only(stack_lines):
@@ -99,6 +109,9 @@ def classify_stderr(text):
     """Returns dict(cls, site, detail) or None if the stderr shows no sanitizer/guard report."""
     lines = text.splitlines()
     for i, ln in enumerate(lines):
+        if ln.startswith('SIMSTEPS '):
+            m = re.match(r'SIMSTEPS class=(\S+) site=(\S+) detail=(.*)', ln)
+            return dict(cls=m.group(1), site=m.group(2), detail=m.group(3), stack=[])
         if ln.startswith('SIMGUARD '):
             m = re.match(r'SIMGUARD sig=(\d+) class=(\S+) site=(\S*) detail=(.*)', ln)
             stack = lines[i + 1:i + 60]
